@@ -163,7 +163,13 @@ def summarize_numpy(W: World, dim: int, self_classes, R, num_vecargs, cls_name):
     saved = {k: env.get(k) for k in ("_shape_of", "_toarrays")}
     env["_shape_of"] = ("builtin", "__opaque_shape__")
     env["_toarrays"] = ("builtin", "__identity__")
-    I = Interp(W)
+    empties = []
+
+    def m_empty(I, args, kwargs):
+        empties.append((args, kwargs))
+        return Opaque(("numpy.empty", len(empties) - 1), "ndarray")
+
+    I = Interp(W, ext_models={"numpy.empty": m_empty})
     n = sum(len(COORD_NAMES[r]) for r in R if r in COORD_NAMES)
     result = tuple(Opaque(f"result[{i}]", "ndarray") for i in range(n)) if n else Opaque("result", "notnone")
     try:
@@ -193,6 +199,35 @@ def summarize_numpy(W: World, dim: int, self_classes, R, num_vecargs, cls_name):
             for gi, gc in enumerate(self_classes):
                 if nm in COORD_NAMES[gc]:
                     coords[k] = f"self.{GROUPS[gi]}.{nm}"
+    # dtype of each output field must come from the same source as its value
+    if len(empties) == 1:
+        dt = empties[0][1].get("dtype", empties[0][0][1] if len(empties[0][0]) > 1 else None)
+        if isinstance(dt, list):
+            names = [d[0] if isinstance(d, tuple) and d else None for d in dt]
+            if names != list(coords):
+                coords["<dtype order>"] = f"dtype fields {names} differ from the stored fields {list(coords)}"
+            for d in dt:
+                if not (isinstance(d, tuple) and len(d) == 2):
+                    coords["<dtype>"] = repr(d)
+                    continue
+                nm, src = d
+                want = coords.get(nm)
+                t = src.tag if isinstance(src, Opaque) else None
+                if isinstance(t, tuple) and t[0] == "attr" and t[2] == "dtype" and isinstance(t[1], str) and t[1].startswith("result["):
+                    got = t[1]
+                elif isinstance(t, tuple) and t[0] == "item" and t[1] == "self.dtype":
+                    got = None
+                    for gi, gc in enumerate(self_classes):
+                        if t[2] in COORD_NAMES[gc]:
+                            got = f"self.{GROUPS[gi]}.{t[2]}"
+                else:
+                    got = repr(src)
+                if want is not None and got != want:
+                    coords[f"<dtype of {nm}>"] = f"{got} (value comes from {want})"
+        else:
+            coords["<dtype>"] = repr(dt)[:80]
+    elif len(empties) != 1:
+        coords["<alloc>"] = f"{len(empties)} numpy.empty calls"
     return ("vector", proj, coords, [])
 
 
